@@ -399,6 +399,16 @@ async fn exec_step(ctx: &mut Ctx, step: &Value) -> (String, String, Value) {
             ctx.handles.insert(h.clone(), d);
             out
         }
+        "join_column" => {
+            // Dataset::merge: a new column from a key join on id (NULL where the join finds no match)
+            let mut d = handle!();
+            let name = step["name"].as_str().unwrap().to_string();
+            let rows = rows_of(&step["src"]);
+            let r = d.merge(reader(&["id".to_string(), name], &rows), "id", "id").await;
+            let out = res_of(&r);
+            ctx.handles.insert(h.clone(), d);
+            out
+        }
         "drop_column" => {
             let mut d = handle!();
             let r = d.drop_columns(&[step["name"].as_str().unwrap()]).await;
